@@ -2,6 +2,7 @@ package types
 
 import (
 	"fmt"
+	"reflect"
 )
 
 // JSONValue is an internal type used in storing various types, for converting any type to JSON supported type.
@@ -108,4 +109,51 @@ func ConvertToJSONSupportedValue(t interface{}) JSONValue {
 	default:
 	}
 	return t
+}
+
+// HasNilValue reports whether v is null or contains a null anywhere inside
+// (map values, slice/array elements, pointers, interfaces, exported struct fields).
+// A null cannot be represented in a Document: it is the mark of a deleted value.
+func HasNilValue(v interface{}) bool {
+	return hasNilValue(reflect.ValueOf(v))
+}
+
+func hasNilValue(rv reflect.Value) bool {
+	switch rv.Kind() {
+	case reflect.Invalid:
+		return true
+	case reflect.Ptr, reflect.Interface:
+		if rv.IsNil() {
+			return true
+		}
+		return hasNilValue(rv.Elem())
+	case reflect.Map:
+		if rv.IsNil() {
+			return true
+		}
+		iter := rv.MapRange()
+		for iter.Next() {
+			if hasNilValue(iter.Value()) {
+				return true
+			}
+		}
+	case reflect.Slice:
+		if rv.IsNil() {
+			return true
+		}
+		fallthrough
+	case reflect.Array:
+		for i := 0; i < rv.Len(); i++ {
+			if hasNilValue(rv.Index(i)) {
+				return true
+			}
+		}
+	case reflect.Struct:
+		for i := 0; i < rv.NumField(); i++ {
+			if rv.Type().Field(i).PkgPath == "" && hasNilValue(rv.Field(i)) {
+				return true
+			}
+		}
+	}
+	return false
 }
